@@ -23,7 +23,7 @@ Proof.
   induction hist as [|e hist IH] using rev_ind.
   - cbn. split; [discriminate | tauto].
   - rewrite handlers_after_app, in_app_iff. cbn [In].
-    destruct e as [[]| |[] []|[]]; cbn [step h_agent];
+    destruct e as [[]| |[] []|[]|[]]; cbn [step h_agent];
       try (rewrite IH; split; [intros H; left; exact H | intros [H|[H|[]]]; [exact H | discriminate H]]).
     split; [intros _; right; left; reflexivity | reflexivity].
 Qed.
@@ -33,7 +33,7 @@ Proof.
   induction hist as [|e hist IH] using rev_ind.
   - cbn. split; [discriminate | tauto].
   - rewrite handlers_after_app, in_app_iff. cbn [In].
-    destruct e as [[]| |[] []|[]]; cbn [step h_x11];
+    destruct e as [[]| |[] []|[]|[]]; cbn [step h_x11];
       try (rewrite IH; split; [intros H; left; exact H | intros [H|[H|[]]]; [exact H | discriminate H]]).
     split; [intros _; right; left; reflexivity | reflexivity].
 Qed.
@@ -71,7 +71,7 @@ Proof.
   induction hist as [|e hist IH] using rev_ind.
   - cbn. split; [discriminate|]. intros [pre [post [Heq _]]]. destruct pre; discriminate.
   - rewrite handlers_after_app.
-    destruct e as [g| |a g|a].
+    destruct e as [g| |a g|a|g].
     + rewrite forward_active_snoc_keep by (reflexivity || discriminate). rewrite <- IH.
       destruct g; reflexivity.
     + rewrite forward_active_snoc_keep by (reflexivity || discriminate). rewrite <- IH. reflexivity.
@@ -81,6 +81,7 @@ Proof.
     + destruct a.
       * cbn [step h_tcp]. split; [discriminate|]. intros H. exfalso. exact (forward_active_snoc_cancel hist H).
       * rewrite forward_active_snoc_keep by (reflexivity || discriminate). rewrite <- IH. reflexivity.
+    + rewrite forward_active_snoc_keep by (reflexivity || discriminate). rewrite <- IH. reflexivity.
 Qed.
 
 (* ---- channel open ---- *)
